@@ -83,25 +83,65 @@ func ruleC13_6(c *Ctx) {
 		c.undecided(R, "in_toto.recordArtifacts", "anchor", 0, "walk callback not found")
 		return
 	}
-	cb := outer.AnonFuncs[0]
+	cb0 := outer.AnonFuncs[0]
+	sf := c.symlinkFrameOf(cb0)
+	cb, so := sf.fr, sf.so
+	// the walked path as the frame sees it
+	pathPrm := ssa.Value(cb0.Params[0])
+	if sf.via != nil {
+		for i, a := range sf.via.Common().Args {
+			if resolve(a, sf.via) == ssa.Value(cb0.Params[0]) && i < len(cb.Params) {
+				pathPrm = cb.Params[i]
+			}
+		}
+	}
 	rec := firstCall(cb, "in_toto.recordArtifacts")
 	if rec == nil {
 		c.bad(R, fname(cb), "recursion", cb.Pos(), "symlinks are not followed")
 		return
 	}
-	c.check(org(rec.Common().Args[0]) == "local(slicelit)[:]" && derives(rec.Common().Args[0], func(v ssa.Value) bool { return org(v) == "path/filepath.EvalSymlinks(p0)#0" }, false), R, fname(cb), "the symlink's target is what is recorded", rec.Pos(), "recordArtifacts([EvalSymlinks(path)])", "the recursion does not record the evaluated symlink target")
+	c.check(so(rec.Common().Args[0]) == "local(slicelit)[:]" && derives(rec.Common().Args[0], func(v ssa.Value) bool { return so(v) == "path/filepath.EvalSymlinks(p0)#0" }, false), R, fname(cb), "the symlink's target is what is recorded", rec.Pos(), "recordArtifacts([EvalSymlinks(path)])", "the recursion does not record the evaluated symlink target")
 	nFile, nDir := 0, 0
 	for _, b := range cb.Blocks {
 		for _, in := range b.Instrs {
 			mu, ok := in.(*ssa.MapUpdate)
-			if !ok || org(mu.Map) != "fv:artifacts" {
+			if !ok || so(mu.Map) != "fv:artifacts" {
 				continue
 			}
 			vo := org(mu.Value)
 			if !strings.HasPrefix(vo, "in_toto.recordArtifacts(") || !strings.HasSuffix(vo, "#0{*}") {
 				continue
 			}
-			ko := org(mu.Key)
+			ko := so(mu.Key)
+			isJoinForm := func(v ssa.Value) bool {
+				j, isJ := v.(*ssa.Call)
+				return isJ && calleeName(j) == "path/filepath.Join" &&
+					derives(j.Call.Args[0], func(v ssa.Value) bool { return v == pathPrm }, false) &&
+					derives(j.Call.Args[0], func(v ssa.Value) bool {
+						k, ok := v.(*ssa.Call)
+						return ok && calleeName(k) == "strings.TrimPrefix" && strings.HasPrefix(org(k.Call.Args[0]), "key(in_toto.recordArtifacts(") && so(k.Call.Args[1]) == "path/filepath.EvalSymlinks(p0)#0"
+					}, false)
+			}
+			// one store whose name is chosen beforehand: a phi of the symlink's own path and the re-rooted name
+			if ph, isPhi := resolve(mu.Key, mu).(*ssa.Phi); isPhi {
+				file, dir, other := 0, 0, 0
+				for _, e := range ph.Edges {
+					switch {
+					case resolve(e, ph) == pathPrm:
+						file++
+					case isJoinForm(resolve(e, ph)):
+						dir++
+					default:
+						other++
+					}
+				}
+				if other == 0 && file > 0 && dir > 0 {
+					nFile++
+					nDir++
+					c.ok(R, fname(cb), "file / directory symlink: stored under the symlink's path or the re-rooted name", mu.Pos(), "artifacts[name] = value with name = path | Join(path, TrimPrefix(key, evalSym))")
+					continue
+				}
+			}
 			if ko == "p0" {
 				nFile++
 				c.ok(R, fname(cb), "file symlink: stored under the symlink's path", mu.Pos(), "artifacts[path] = value")
@@ -110,10 +150,10 @@ func ruleC13_6(c *Ctx) {
 			// Join(path, TrimPrefix(key, evalSym))
 			j, isJ := resolve(mu.Key, mu).(*ssa.Call)
 			okJ := isJ && calleeName(j) == "path/filepath.Join" &&
-				derives(j.Call.Args[0], func(v ssa.Value) bool { return v == ssa.Value(cb.Params[0]) }, false) &&
+				derives(j.Call.Args[0], func(v ssa.Value) bool { return v == pathPrm }, false) &&
 				derives(j.Call.Args[0], func(v ssa.Value) bool {
 					k, ok := v.(*ssa.Call)
-					return ok && calleeName(k) == "strings.TrimPrefix" && strings.HasPrefix(org(k.Call.Args[0]), "key(in_toto.recordArtifacts(") && org(k.Call.Args[1]) == "path/filepath.EvalSymlinks(p0)#0"
+					return ok && calleeName(k) == "strings.TrimPrefix" && strings.HasPrefix(org(k.Call.Args[0]), "key(in_toto.recordArtifacts(") && so(k.Call.Args[1]) == "path/filepath.EvalSymlinks(p0)#0"
 				}, false)
 			nDir++
 			c.check(okJ, R, fname(cb), "directory symlink: stored under Join(symlink path, path relative to the target)", mu.Pos(), "filepath.Join(path, strings.TrimPrefix(key, evalSym))", "entries behind a directory symlink are stored under "+short(ko))
